@@ -60,6 +60,7 @@ package cache
 //@   ensures[C05] forall id string :: id != c.Ctr.Id ==> (id in c.cache.pending) == old(id in c.cache.pending)
 //@   ensures[C05] len(controllers) == 0 ==> (c.Ctr.Id in c.cache.pending) == old(c.Ctr.Id in c.cache.pending)
 //@   ensures[C05] old(c.cache.pending) != nil ==> c.cache.pending == old(c.cache.pending)
+//@   ensures[C05] old(c.cache.pending) == nil ==> c.cache.pending == nil || fresh(c.cache.pending)
 //@   ensures[C05] old(c.cache.pending) == nil && len(controllers) > 0 ==> fresh(c.cache.pending)
 //@ loop 0 in (*container).markPending at "range controllers"
 //@   modifies c.pending[*] if c.pending != nil, c.cache.pending if c.cache.pending == nil, c.cache.pending[*] if c.cache.pending != nil
@@ -70,6 +71,7 @@ package cache
 //@   invariant[C05] rangeindex < 0 ==> (c.Ctr.Id in c.cache.pending) == old(c.Ctr.Id in c.cache.pending)
 //@   invariant[C05] forall id string :: id != c.Ctr.Id ==> (id in c.cache.pending) == old(id in c.cache.pending)
 //@   invariant[C05] old(c.cache.pending) != nil ==> c.cache.pending == old(c.cache.pending)
+//@   invariant[C05] old(c.cache.pending) == nil ==> c.cache.pending == nil || fresh(c.cache.pending)
 //@   invariant[C05] old(c.cache.pending) == nil ==> c.cache.pending == nil || fresh(c.cache.pending)
 
 //@ func (*container).ClearPending
